@@ -183,7 +183,9 @@ func Load(repo string, cfg BuildConfig) (*Program, error) {
 		}
 	}
 	if ref != nil && os.Getenv("VERIF_NO_INLINE") == "" && len(freshFunctions(ref, cfg.Name, byPath)) > 0 {
+		lightBase = byPath
 		ov2, notes := deextract(repo, cfg, ref, overlay, nil)
+		lightBase = nil
 		for _, n := range notes {
 			renames = append(renames, "de-extraction: "+n)
 		}
